@@ -19,7 +19,7 @@ from engine.modset import ModSets
 from engine.shape import Keyer
 from engine.facts import AnalysisBroken
 
-UNITS = ['CCL', 'CGraph']
+UNITS = ['CCL', 'CGraph', 'RSlang2']
 OPS = 'ccl::ops::'
 S = 'ccl::semantic::'
 EP = OPS + 'RSEquationProcessor'
@@ -194,6 +194,9 @@ def _admissible_table(db, rep):
     defined iff every left side is a constituent of operand 1 AND every right side a constituent of operand 2 (and the pairs are equatable)"""
     import itertools
     from engine.evalmini import Interp, Obj, OutOfFragment, NOT_HANDLED
+    r14 = rep.rule('r14', 'TOKENS (shared with C08 r2): every rewriting of mentions in a merge or an equation goes through TranslateRS, which - interpreted on scripted token streams with three occurrences of a name and a replacement of another length - rewrites every occurrence in place', 1)
+    from rules import C08
+    C08.translate_all_tokens(db, r14)
     r13 = rep.rule('r13', 'COPIES-ANALYSED (shared with C07 r2): an insertion that loads the copies with the deferred loader reaches UpdateState on every path to its return - whether or not a name had to change - so the merged schema holds the parse results and resolved texts of what it now contains', 3)
     from rules import C07
     C07.deferred_rule(db, r13)
